@@ -75,6 +75,12 @@ Wrapped == {SAlias("T", x) : x \in {SInt05, R_Dict, R_Body}} \cup
            {SCustom(x) : x \in {SInt05, SStrAlpha}} \cup
            {TypedList(SCustom(SInt05)), DictOf(<<DKey(KA, SAlias("T", R_Any), FALSE)>>)}
 
-Containers == Level1 \cup Level2 \cup Wrapped
+\* level-2 shapes every tier includes: nested relaxed dicts under any / contains-lists,
+\* where substitution can fail after validation succeeded
+Focus == AnysOver({R_DictRelaxed, R_Dict, SInt1}) \cup
+         ListsOver({R_DictRelaxed}, {R_DictRelaxed, R_Any}) \cup
+         DictsOver({R_Any, R_Body})
+
+Containers == Level1 \cup Level2 \cup Wrapped \cup Focus
 
 =============================================================================
